@@ -183,6 +183,44 @@ done:
 	return out;
 }
 
+
+// 23 leaves leave four occupied stack slots (10111b) to be merged by close; two of the leaves are metadata leaves
+static std::string op_treebuilder_big(Env &e) {
+	std::string out; int res;
+	const int N = 23;
+	KSI_TreeBuilder *b = nullptr; KSI_TreeLeafHandle *leaves[N]; KSI_DataHash *hs[N]; KSI_MetaData *md[N];
+	for (int i = 0; i < N; i++) { leaves[i] = nullptr; hs[i] = nullptr; md[i] = nullptr; }
+	KSI_AggregationHashChain *chain = nullptr, *chain2 = nullptr; KSI_DataHash *root = nullptr, *root2 = nullptr; int lvl = 0, lvl2 = 0;
+	CK(KSI_TreeBuilder_new(e.ctx, KSI_HASHALG_SHA2_256, &b), "new");
+	for (int i = 0; i < N; i++) {
+		if (i == 5 || i == 20) {
+			KSI_Utf8String *u = nullptr;
+			CK(KSI_MetaData_new(e.ctx, &md[i]), "md");
+			CK(KSI_Utf8String_new(e.ctx, "client", 7, &u), "utf8");
+			res = KSI_MetaData_setClientId(md[i], u); /* takes its own reference */
+			KSI_Utf8String_free(u);
+			if (res != KSI_OK) { out = E(res, "setClientId"); goto done; }
+			CK(KSI_TreeBuilder_addMetaData(b, md[i], 0, &leaves[i]), "addmd");
+		} else {
+			hs[i] = sdk::hash_from_imprint(e.ctx, imprint(1, "bigleaf" + std::to_string(i)));
+			if (!hs[i]) { out = E(KSI_OUT_OF_MEMORY, "hash"); goto done; }
+			CK(KSI_TreeBuilder_addDataHash(b, hs[i], 0, &leaves[i]), "add");
+		}
+	}
+	CK(KSI_TreeBuilder_close(b), "close");
+	CK(KSI_TreeLeafHandle_getAggregationChain(leaves[4], &chain), "getchain");
+	CK(KSI_AggregationHashChain_aggregate(chain, 0, &lvl, &root), "aggregate");
+	CK(KSI_TreeLeafHandle_getAggregationChain(leaves[22], &chain2), "getchain2");
+	CK(KSI_AggregationHashChain_aggregate(chain2, 0, &lvl2, &root2), "aggregate2");
+	out = "OK:" + hex(sdk::imprint_of(root)) + ":" + std::to_string(lvl) + ":" + hex(sdk::imprint_of(root2)) + ":" + std::to_string(lvl2);
+done:
+	KSI_DataHash_free(root); KSI_DataHash_free(root2);
+	KSI_AggregationHashChain_free(chain); KSI_AggregationHashChain_free(chain2);
+	for (int i = 0; i < N; i++) { KSI_TreeLeafHandle_free(leaves[i]); KSI_DataHash_free(hs[i]); KSI_MetaData_free(md[i]); }
+	KSI_TreeBuilder_free(b);
+	return out;
+}
+
 static std::string op_blocksigner(Env &e) {
 	std::string out; int res;
 	KSI_BlockSigner *bs = nullptr; KSI_BlockSignerHandle *h[3] = {nullptr, nullptr, nullptr}; KSI_DataHash *hs[3] = {nullptr, nullptr, nullptr}; KSI_Signature *sig = nullptr;
@@ -350,6 +388,8 @@ static std::vector<Case> &catalogue() {
 		{"async_cache_size_growth", op_cache_grow},
 		{"identity_and_to_string", op_identity},
 		{"publications_file_parse_lookup", op_pubfile_parse},
+		// appended later (stored replays address cases by index)
+		{"tree_builder_23_leaves_with_metadata", op_treebuilder_big},
 	};
 	return c;
 }
